@@ -5,7 +5,7 @@ use crate::syntax::pretty_decimal::{self, PrettyDecimal};
 use chrono::NaiveDate;
 use winnow::{
     ascii::digit1,
-    combinator::{alt, trace},
+    combinator::{alt, opt, trace},
     error::{FromExternalError, ParserError},
     stream::{AsChar, Stream, StreamIsPartial},
     token::{one_of, take_till, take_while},
@@ -17,15 +17,21 @@ pub fn pretty_decimal<'a, I, E>(input: &mut I) -> winnow::Result<PrettyDecimal, 
 where
     I: Stream<Slice = &'a str> + StreamIsPartial,
     E: ParserError<I> + FromExternalError<I, pretty_decimal::Error>,
-    <I as Stream>::Token: AsChar,
+    <I as Stream>::Token: AsChar + Clone,
 {
     trace(
         "primitive::comma_decimal",
-        take_while(1.., |c: <I as Stream>::Token| {
-            let c = c.as_char();
-            c.is_ascii_digit() || c == '-' || c == ',' || c == '.'
-        })
-        .try_map(str::parse),
+        // `-` is a part of the number only at the beginning,
+        // otherwise it is an operator such as `(3-1 USD)`.
+        (
+            opt(one_of('-')),
+            take_while(1.., |c: <I as Stream>::Token| {
+                let c = c.as_char();
+                c.is_ascii_digit() || c == ',' || c == '.'
+            }),
+        )
+            .take()
+            .try_map(str::parse),
     )
     .parse_next(input)
 }
